@@ -91,3 +91,6 @@ func VerifFindIndexEntry(entries []IndexEntry, offset int64) IndexEntry {
 
 // VerifSegmentKey exposes the S3 key of a segment.
 func (l *PartitionLog) VerifSegmentKey(base int64) string { return l.segmentKey(base) }
+
+// VerifIndexKey exposes the S3 key of a segment's index object.
+func (l *PartitionLog) VerifIndexKey(base int64) string { return l.indexKey(base) }
